@@ -76,7 +76,9 @@ Reps(e) == IF e.mn \in {"movsb", "stosb"} THEN {0, 243, 242} ELSE {0}
 Inst(e) ==
     UNION {LET r0 == IF e.regk = "xmm" THEN Xmm(1) ELSE Reg(1, osz)
                rs == IF HasRegRole(e) THEN RegChoices(e.regk, osz) ELSE {r0}
-               ms == IF HasModRM(e) THEN RmChoices(e, osz)
+               full == Deep \/ \A t \in Sizes(e) : osz >= t        \* quick: all addressing forms at the largest size only
+               ms == IF HasModRM(e) THEN (IF full THEN RmChoices(e, osz)
+                                          ELSE {m \in RmChoices(e, osz) : m.k # "mem" \/ m.disp \in {-129, 100} \/ m.base \in {4, 5}})
                      ELSE IF e.enc \in {"O", "OI"} THEN RegChoices("gpr", osz) ELSE {One}
                m0 == IF HasModRM(e) THEN Mem(3, None, 1, 0, MemSize(e, osz))
                      ELSE IF e.enc \in {"O", "OI"} THEN Reg(3, osz) ELSE One
